@@ -1,6 +1,10 @@
 import Driver.Util
 import PasslibVerif.Model.Totp
 import PasslibVerif.Model.TotpKey
+import PasslibVerif.Model.Hmac
+import PasslibVerif.Spec.SHA1
+import PasslibVerif.Spec.SHA256
+import PasslibVerif.Spec.SHA512
 namespace Driver.Totp
 open Py Driver Model.Totp Model.TotpKey
 
@@ -73,6 +77,20 @@ def handle (args : List String) : String :=
     | some k => "ok " ++ String.ofList ((hexKey k).map Char.ofNat) | none => bad
   | ["b32key", h] => match ofHex h with
     | some k => "ok " ++ String.ofList ((base32Key k).map Char.ofNat) | none => bad
+  | ["token", alg, key, digits, counter] =>
+    match ofHex key, digits.toNat?, counter.toNat? with
+    | some k, some d, some c =>
+      let mac : Option (Bytes → Bytes) := match alg with
+        | "sha1" => some (Model.Hmac.compileHmac Spec.SHA1.sha1 64 20 k)
+        | "sha256" => some (Model.Hmac.compileHmac Spec.SHA256.sha256 64 32 k)
+        | "sha512" => some (Model.Hmac.compileHmac Spec.SHA512.sha512 128 64 k)
+        | _ => none
+      (match mac with
+        | none => bad
+        | some m => match generate m d c with
+          | some t => "ok " ++ String.ofList (t.map Char.ofNat)
+          | none => "err struct.error")
+    | _, _, _ => bad
   | _ => bad
 
 end Driver.Totp
